@@ -13,12 +13,15 @@ DOC = "docs/content/geoh5_format/geoh5_file_format.textile"
 
 
 class FormatDoc:
-    def __init__(self, repo: str):
+    def __init__(self, repo: str, overlay: dict | None = None):
         path = os.path.join(repo, DOC)
-        if not os.path.exists(path):
-            raise AnalysisError(f"format document {DOC} not found")
-        with open(path, encoding="utf-8") as fh:
-            self.lines = fh.read().splitlines()
+        if overlay and DOC in overlay:
+            self.lines = overlay[DOC].splitlines()
+        else:
+            if not os.path.exists(path):
+                raise AnalysisError(f"format document {DOC} not found")
+            with open(path, encoding="utf-8") as fh:
+                self.lines = fh.read().splitlines()
         self.sections: list[tuple[int, str, list[str]]] = []  # (level, title, body lines)
         cur = None
         for ln in self.lines:
